@@ -40,6 +40,8 @@ class Ctx(object):
         self.alias = {}      # definition atom -> +-(older definition atom) proved equal to it
         self.alias_forms = None   # optional: candidate images of an older definition under the renaming being applied (default +-)
         self.positive = set()   # atoms known to be > 0 (sqrt may pull their even powers out)
+        self.pos_atoms = set()  # inputs known to be > 0: used only to fold indicators whose argument has an evident sign
+        self._pos = {}
 
     # -- atoms ---------------------------------------------------------------
     def name_of(self, struct):
@@ -291,10 +293,55 @@ class Ctx(object):
             return self.inv(atom) if flip else atom
         return Poly.var(self.name_of(('fn', f, tuple(args))))
 
+    # -- evident signs ----------------------------------------------------------
+    def atom_pos(self, a):
+        """True when the atom is positive for all admissible inputs (zero on a null set at most)"""
+        if a in self._pos:
+            return self._pos[a]
+        self._pos[a] = False
+        st = self.atoms.get(a, ('var', a))
+        if st[0] == 'var':
+            r = st[1] in self.pos_atoms or st[1] in self.positive
+        elif st[0] == 'inv':
+            r = self.is_pos(st[1])
+        elif st[0] == 'def':
+            r = self.is_pos(st[2])
+        elif st[0] == 'ind':
+            r = False
+        elif st[1] in ('sqrt', 'abs'):
+            r = True
+        elif st[1] == 'max':
+            r = any(self.is_pos(x) for x in st[2])
+        elif st[1] == 'pow':
+            r = self.is_pos(st[2][0])
+        else:
+            r = False
+        self._pos[a] = r
+        return r
+
+    def is_pos(self, p):
+        """every term has a positive coefficient and only positive atoms (or even powers)"""
+        if p.is_zero():
+            return False
+        for mono, c in p.t.items():
+            if c <= 0:
+                return False
+            for a, e in mono:
+                if e % 2 and not self.atom_pos(a):
+                    return False
+                if not e % 2 and a.startswith('IND{'):
+                    return False
+        return True
+
     def ind(self, p):
         """[p > 0]"""
         if p.is_const():
             return Poly.const(1 if p.const_value() > 0 else 0)
+        if self.pos_atoms:
+            if self.is_pos(p):
+                return Poly.const(1)
+            if self.is_pos(-p):
+                return Poly.const(0)
         cont = self.pos_content([p])
         if cont:
             return self.ind(self.strip_content(p, cont))
@@ -331,7 +378,15 @@ class Ctx(object):
         try:
             if st[0] == 'var':
                 h = int(hashlib.sha1(('%s/%s' % (a, salt)).encode()).hexdigest()[:12], 16)
-                v = 0.6 + 1.3 * (h % 1000003) / 1000003.0
+                u = (h % 1000003) / 1000003.0
+                if salt < 2:
+                    v = 0.6 + 1.3 * u
+                elif st[1] in self.pos_atoms or st[1] in self.positive:
+                    v = 10.0 ** (-1.5 + 3.0 * u)                      # witness search: positive inputs over three decades
+                    if st[1] == 'gamma':
+                        v = 1.05 + 1.9 * u
+                else:
+                    v = (1.0 if (h >> 20) % 2 else -1.0) * 10.0 ** (-1.0 + 1.7 * u)
             elif st[0] == 'inv':
                 v = 1.0 / self.fp(st[1], salt)
             elif st[0] == 'def':
@@ -369,6 +424,22 @@ class Ctx(object):
                 term *= v ** e
             tot += term
         return tot
+
+    def witness(self, residual, scale, tries=400):
+        """an admissible sample point (all intermediate values real) at which the residual is clearly non-zero; None if none of `tries` points is one"""
+        names = sorted(a for a, st in self.atoms.items() if st[0] == 'var')
+        for salt in range(2, 2 + tries):
+            try:
+                r = complex(self.fp(residual, salt))
+                sc = abs(complex(self.fp(scale, salt))) + 1e-300
+            except (ValueError, ZeroDivisionError, OverflowError, TypeError):
+                continue
+            used = [k for k in self._fp if k[1] == salt]
+            if any(abs(complex(self._fp[k]).imag) > 1e-12 * (1 + abs(complex(self._fp[k]))) for k in used if self._fp[k] is not None):
+                continue
+            if abs(r) > 1e-6 * sc:
+                return dict((n, complex(self._fp[(n, salt)]).real) for n in names if (n, salt) in self._fp), abs(r) / sc
+        return None
 
     def maybe_equal(self, a, b):
         """False only when two fingerprints tell a and b apart"""
@@ -417,6 +488,21 @@ class Ctx(object):
                 k = d.pop(a, 0)
                 out = self.check(out + Poly({tuple(sorted(d.items())): c}) * pw[emax - k])
             e = self.simplify(out)
+
+    def quick_zero(self, e, seconds=3.0):
+        """prove_zero under a small budget of its own (used while searching for equal temporaries: giving up only loses a shortcut)"""
+        import time
+        saved = self.deadline
+        mine = time.time() + seconds
+        self.deadline = mine if saved is None else min(saved, mine)
+        try:
+            return self.prove_zero(e)[0]
+        except Budget:
+            if saved is not None and time.time() > saved:
+                raise
+            return False
+        finally:
+            self.deadline = saved
 
     def prove_zero(self, e):
         """(True, 0) when e vanishes identically: simplification, then clearing denominators, then unfolding definition atoms
@@ -523,7 +609,7 @@ class Ctx(object):
                     ob = Poly.var(old)
                     hit = None
                     for cand in (self.alias_forms(ob) if self.alias_forms else (ob, -ob)):
-                        if self.maybe_equal(Poly.var(new), cand) and self.prove_zero(Poly.var(new) - cand)[0]:
+                        if self.maybe_equal(Poly.var(new), cand) and self.quick_zero(Poly.var(new) - cand):
                             hit = cand
                             break
                     if hit is not None:
@@ -747,6 +833,8 @@ class Evaluator(object):
             return self.assign(s.target, r)
         if isinstance(s, ast.If) and self.chooser is not None and id(s) in self.spine:
             cnd = self.cond(s.test)
+            if cnd.is_const():
+                return self.block(s.body if cnd.const_value() != 0 else s.orelse)
             taken = self.chooser(len(self.decisions))
             self.decisions.append((s, cnd, taken))
             return self.block(s.body if taken else s.orelse)
